@@ -13,6 +13,20 @@ is an `int` and epubdoc converts any `int`), and over arbitrary call histories o
 
 Plain text is compared up to white space (`squeeze`): the property does not fix white space, and
 up to white space the text view is a function of the atoms alone (`squeeze_renderText`).
+
+## The depth limit (fix a65974f / 616a480: "HTML nested deeper than 10000 levels is refused")
+
+`OpenReader` now measures the parsed tree (`treeDeeperThan(doc, maxTreeDepth)`, iteratively) before
+anything walks it by recursion, and returns an error when the tree is deeper than 10000 edges from
+the document node.  So the statements about the PUBLIC calls no longer hold for all trees: beyond
+the limit there is no reader and no text.  They are restated here for `openText`, `openMarkdown`,
+`openDocument`, `freshE`, `runCallsE`, `extractor…E` (the calls including `OpenReader`) under the
+decidable hypothesis `depth doc ≤ maxTreeDepth`; `open_refuses_beyond` says what happens beyond it.
+The former universal statements are kept, verbatim, under the names `view_…`: they speak about the
+views of a reader (`textWithOptions` …: `(*Reader).TextWithOptions` on a reader that exists), whose
+code did not change, and hold for every tree as statements about those functions.
+The EPUB chapter loops `continue` on the error of `OpenReader`: a chapter beyond the limit is left
+out WITHOUT an error; the EPUB theorems are restated over the admitted chapters (`admitted`).
 -/
 namespace Tabula.C19Api
 open Tabula.Html Tabula.C19
@@ -29,35 +43,66 @@ theorem int_mode_is_clamped (m : Int) :
   ⟨excludedI_clamp m, extractI_clamp m, clampMode_toInt⟩
 
 /-- `Text()`, `Markdown()`, `Document()` are the `…WithOptions` calls with mode Standard; the
-`tabula.Extractor` text path asks for mode None, its Document path for Standard. -/
+`tabula.Extractor` text path asks for mode None, its Document path for Standard.
+(Unchanged in content; now stated for the calls including `OpenReader`, where both sides are the
+same error beyond the depth limit.) -/
 theorem api_defaults (doc : Dom) :
-    fresh doc .text = fresh doc (.textOpts Mode.standard.toInt) ∧
-    fresh doc .md = fresh doc (.mdOpts Mode.standard.toInt) ∧
-    fresh doc .doc = fresh doc (.docOpts Mode.standard.toInt) ∧
-    extractorText doc = textWithOptions Mode.none.toInt doc ∧
-    extractorDocument doc = documentWithOptions Mode.standard.toInt doc ∧
-    fresh doc (.textOpts 0) = .str (extractorText doc) := by
+    freshE doc .text = freshE doc (.textOpts Mode.standard.toInt) ∧
+    freshE doc .md = freshE doc (.mdOpts Mode.standard.toInt) ∧
+    freshE doc .doc = freshE doc (.docOpts Mode.standard.toInt) ∧
+    extractorTextE doc = openText Mode.none.toInt doc ∧
+    extractorDocumentE doc = openDocument Mode.standard.toInt doc ∧
+    freshE doc (.textOpts 0) = (extractorTextE doc).map .str := by
   refine ⟨rfl, rfl, rfl, rfl, rfl, ?_⟩
-  rw [fresh_eq]; rfl
+  unfold freshE openReaderE extractorTextE
+  rw [guarded_eq, guarded_eq]
+  cases admitted doc
+  · rfl
+  · show some (fresh doc (.textOpts 0)) = _
+    rw [fresh_eq]; rfl
 
-/-- what a fresh reader answers is the view of `extract` for the clamped mode from body -/
-theorem fresh_is_extract (doc : Dom) (c : Call) :
+/-- what a reader answers is the view of `extract` for the clamped mode from body (about a reader
+that exists: unchanged) -/
+theorem view_fresh_is_extract (doc : Dom) (c : Call) :
     fresh doc c = c.render (extract (clampMode c.mode) (bodyOf doc)) := by
   rw [fresh_eq, extractI_clamp]
+
+/-- RESTATED with the depth hypothesis (was: for every tree): `OpenReader` followed by one call
+answers the view of `extract` for the clamped mode from body. -/
+theorem fresh_is_extract (doc : Dom) (c : Call) (hd : depth doc ≤ maxTreeDepth) :
+    freshE doc c = some (c.render (extract (clampMode c.mode) (bodyOf doc))) := by
+  unfold freshE openReaderE
+  rw [guarded_within doc _ hd]
+  show some (fresh doc c) = _
+  rw [view_fresh_is_extract]
+
+example : depth (nestedDoc 9996 [120]) ≤ maxTreeDepth := by rw [depth_nestedDoc]; decide
 
 /-! ## call histories -/
 
 /-- Any sequence of public calls on ONE reader — Text, Markdown, Document, with or without
 options, any raw mode values, any order, any repetition — returns, call by call, what a reader
 opened for that call alone returns: the per-mode cache never leaks a result across modes or
-views (invariant `ReaderOk` over the history). -/
-theorem api_history (doc : Dom) (cs : List Call) :
+views (invariant `ReaderOk` over the history).  (About a reader that exists: unchanged.) -/
+theorem view_api_history (doc : Dom) (cs : List Call) :
     runCalls (openReader doc) cs = cs.map (fresh doc) :=
   runCalls_correct doc cs (openReader doc) (openReader_ok doc)
 
+/-- RESTATED with the depth hypothesis (was: for every tree): within the limit `OpenReader` succeeds,
+and any call sequence on the reader it returns answers, call by call, what `OpenReader` followed by
+that call alone answers. -/
+theorem api_history (doc : Dom) (cs : List Call) (hd : depth doc ≤ maxTreeDepth) :
+    (runCallsE doc cs).map (·.map some) = some (cs.map (freshE doc)) := by
+  unfold runCallsE freshE openReaderE
+  rw [guarded_within doc _ hd]
+  simp only [Option.map_some]
+  rw [view_api_history]
+  simp [fresh, List.map_map, Function.comp_def]
+
 example : ReaderOk (.text []) (openReader (.text [])) := openReader_ok _
 
-/-- … from any reachable reader state, and the state stays reachable -/
+/-- … from any reachable reader state, and the state stays reachable (a statement about readers that
+exist; unchanged) -/
 theorem api_history_invariant (doc : Dom) (r : ReaderI) (c : Call) (h : ReaderOk doc r) :
     (call r c).1 = fresh doc c ∧ ReaderOk doc (call r c).2 := by
   have g := call_correct doc r c h
@@ -83,7 +128,7 @@ theorem excluded_mono_rank (m1 m2 : Mode) (h : m1.rank ≤ m2.rank) (pos : Pos) 
 
 /-- up to white space, `TextWithOptions` is the atoms of the specification, one after the other
 (a bullet before each list item) -/
-theorem text_is_atoms (m : Int) (doc : Dom) :
+theorem view_text_is_atoms (m : Int) (doc : Dom) :
     squeeze (textWithOptions m doc) =
       (atomsOf (excluded (clampMode m)) (bodyOf doc)).flatMap Atom.sq := by
   unfold textWithOptions
@@ -95,9 +140,9 @@ theorem text_is_atoms (m : Int) (doc : Dom) :
 /-- MONOTONE, END TO END: for raw mode values `a`, `b` with `b` at least as strict as `a`, the text
 `TextWithOptions` returns for `b` is (white space aside) a subsequence of the text it returns for
 `a`, for every document, from the document node. -/
-theorem text_monotone (a b : Int) (h : (clampMode a).rank ≤ (clampMode b).rank) (doc : Dom) :
+theorem view_text_monotone (a b : Int) (h : (clampMode a).rank ≤ (clampMode b).rank) (doc : Dom) :
     (squeeze (textWithOptions b doc)).Sublist (squeeze (textWithOptions a doc)) := by
-  rw [text_is_atoms, text_is_atoms]
+  rw [view_text_is_atoms, view_text_is_atoms]
   apply sublist_flatMap
   unfold atomsOf
   exact filter_monotone _ _ (fun pos n => excluded_mono_rank _ _ h pos n) _ _ _ _
@@ -106,20 +151,20 @@ example : (clampMode 1).rank ≤ (clampMode 7).rank := by decide
 
 /-- the four documented modes as a chain, and mode None (also what `Extractor.Text` uses) returns
 everything: every mode value returns a subsequence of it -/
-theorem text_mode_chain (doc : Dom) :
+theorem view_text_mode_chain (doc : Dom) :
     (squeeze (textWithOptions 3 doc)).Sublist (squeeze (textWithOptions 2 doc)) ∧
     (squeeze (textWithOptions 2 doc)).Sublist (squeeze (textWithOptions 1 doc)) ∧
     (squeeze (textWithOptions 1 doc)).Sublist (squeeze (textWithOptions 0 doc)) ∧
     (∀ m : Int, (squeeze (textWithOptions m doc)).Sublist (squeeze (extractorText doc))) := by
-  refine ⟨text_monotone 2 3 (by decide) doc, text_monotone 1 2 (by decide) doc,
-    text_monotone 0 1 (by decide) doc, ?_⟩
+  refine ⟨view_text_monotone 2 3 (by decide) doc, view_text_monotone 1 2 (by decide) doc,
+    view_text_monotone 0 1 (by decide) doc, ?_⟩
   intro m
-  exact text_monotone 0 m (by simp [clampMode, Mode.rank]) doc
+  exact view_text_monotone 0 m (by simp [clampMode, Mode.rank]) doc
 
 /-- CONTENT, END TO END: up to white space and the list bullets, the text `TextWithOptions`
 returns is the source text of the document — the text nodes of its non-skipped, non-excluded
 content elements, each once, in the order of their content elements. -/
-theorem text_is_source_text (m : Int) (doc : Dom) :
+theorem view_text_is_source_text (m : Int) (doc : Dom) :
     (squeeze (textWithOptions m doc)).filter (· != 0x2022) =
       (squeeze (srcOf m doc)).filter (· != 0x2022) := by
   rw [← Tabula.C19Text.content_text_complete_api]
@@ -138,7 +183,7 @@ theorem text_is_source_text (m : Int) (doc : Dom) :
 
 /-- the Document view keeps every non-empty text of the elements in order (code and quotes become
 paragraphs, the table grid only adds empty cells), and is monotone in the mode like the text view -/
-theorem document_keeps_content (m : Int) (doc : Dom) :
+theorem view_document_keeps_content (m : Int) (doc : Dom) :
     nonEmpty (docTexts (documentWithOptions m doc)) =
       nonEmpty ((atomsOf (excluded (clampMode m)) (bodyOf doc)).map Atom.text) := by
   unfold documentWithOptions
@@ -146,30 +191,160 @@ theorem document_keeps_content (m : Int) (doc : Dom) :
   unfold extract
   rw [traverse_refines_atoms]
 
-theorem document_monotone (a b : Int) (h : (clampMode a).rank ≤ (clampMode b).rank) (doc : Dom) :
+theorem view_document_monotone (a b : Int) (h : (clampMode a).rank ≤ (clampMode b).rank) (doc : Dom) :
     (nonEmpty (docTexts (documentWithOptions b doc))).Sublist
       (nonEmpty (docTexts (documentWithOptions a doc))) := by
-  rw [document_keeps_content, document_keeps_content]
+  rw [view_document_keeps_content, view_document_keeps_content]
   apply List.Sublist.filter
   apply List.Sublist.map
   unfold atomsOf
   exact filter_monotone _ _ (fun pos n => excluded_mono_rank _ _ h pos n) _ _ _ _
 
+/-! ## the depth limit of OpenReader -/
+
+/-- THE WALK COMPUTES THE HEIGHT: `treeDeeperThan(root, limit)` — the iterative walk with its depth
+counter and early exit — answers exactly whether the height of the tree (edges from the root to its
+deepest node, text nodes included) exceeds the limit; strictly: height = limit passes. -/
+theorem tree_deeper_than_is_height (doc : Dom) (limit : Nat) :
+    treeDeeperThan doc limit = decide (limit < depth doc) := treeDeeperThan_eq doc limit
+
+/-- BEYOND THE LIMIT the model answers what the code answers: `OpenReader` returns its error, so
+every public call that goes through it — one call, a call sequence, the three views, the three
+`tabula.Extractor` calls — returns an error and no text; this is the only case in which it does. -/
+theorem open_refuses_beyond (doc : Dom) :
+    (openReaderE doc = none ↔ maxTreeDepth < depth doc) ∧
+    (maxTreeDepth < depth doc →
+      (∀ c, freshE doc c = none) ∧ (∀ cs, runCallsE doc cs = none) ∧
+      (∀ m, openText m doc = none ∧ openMarkdown m doc = none ∧ openDocument m doc = none) ∧
+      extractorTextE doc = none ∧ extractorMarkdownE doc = none ∧ extractorDocumentE doc = none) := by
+  refine ⟨guarded_eq_none_iff doc _, fun h => ?_⟩
+  have ho : openReaderE doc = none := guarded_beyond doc _ h
+  refine ⟨fun c => by unfold freshE; rw [ho]; rfl, fun cs => by unfold runCallsE; rw [ho]; rfl,
+    fun m => ⟨guarded_beyond doc _ h, guarded_beyond doc _ h, guarded_beyond doc _ h⟩,
+    guarded_beyond doc _ h, guarded_beyond doc _ h, guarded_beyond doc _ h⟩
+
+/-- WITHIN THE LIMIT nothing changed: `OpenReader` succeeds and every call answers the view of the
+reader, for every mode value. -/
+theorem open_within (doc : Dom) (hd : depth doc ≤ maxTreeDepth) :
+    openReaderE doc = some (openReader doc) ∧
+    (∀ c, freshE doc c = some (fresh doc c)) ∧
+    (∀ m, openText m doc = some (textWithOptions m doc) ∧ openMarkdown m doc = some (markdownWithOptions m doc) ∧
+      openDocument m doc = some (documentWithOptions m doc)) ∧
+    extractorTextE doc = some (extractorText doc) ∧ extractorMarkdownE doc = some (extractorMarkdown doc) ∧
+    extractorDocumentE doc = some (extractorDocument doc) := by
+  have ho : openReaderE doc = some (openReader doc) := guarded_within doc _ hd
+  exact ⟨ho, fun c => by unfold freshE; rw [ho]; rfl,
+    fun m => ⟨guarded_within doc _ hd, guarded_within doc _ hd, guarded_within doc _ hd⟩,
+    guarded_within doc _ hd, guarded_within doc _ hd, guarded_within doc _ hd⟩
+
+/-- at the edge: document → html → body → p → 9996 nested spans → text has height 10000 and is
+admitted; one span more and it is refused -/
+example : openReaderE (nestedDoc 9996 [120]) = some (openReader (nestedDoc 9996 [120])) ∧
+    openReaderE (nestedDoc 9997 [120]) = none ∧ openText 0 (nestedDoc 9997 [120]) = none :=
+  ⟨(open_within _ (by rw [depth_nestedDoc]; decide)).1,
+   (open_refuses_beyond _).1.mpr (by rw [depth_nestedDoc]; decide),
+   ((open_refuses_beyond _).2 (by rw [depth_nestedDoc]; decide)).2.2.1 0 |>.1⟩
+
+example : treeDeeperThan (nestedDoc 9996 [120]) maxTreeDepth = false ∧
+    treeDeeperThan (nestedDoc 9997 [120]) maxTreeDepth = true ∧
+    treeDeeperThan (nestedDoc 9997 [120]) (maxTreeDepth + 1) = false := by
+  simp only [tree_deeper_than_is_height, depth_nestedDoc]; decide
+
+/-- BOUNDED WORK, for every input: the recursive walks of htmldoc (extractHead, extractBody, the
+element handlers, the text collectors) only ever run on a tree `OpenReader` admitted, and there
+every node — of the document and of the body subtree the extraction starts from — sits at most
+`maxTreeDepth` edges below the document node with at most the rest of that budget below it.  A walk
+that recurses once per child level therefore has at most `maxTreeDepth + 1` frames open; for a
+refused tree none at all. -/
+theorem recursion_depth_bounded (doc : Dom) :
+    (match openReaderE doc with | none => 0 | some _ => depth doc + 1) ≤ maxTreeDepth + 1 ∧
+    (∀ r, openReaderE doc = some r →
+      depth doc ≤ maxTreeDepth ∧ depth (bodyOf doc) ≤ maxTreeDepth ∧
+      ∀ x ∈ nodesAt 0 doc, x.1 + depth x.2 ≤ maxTreeDepth) := by
+  have key : ∀ r, openReaderE doc = some r → depth doc ≤ maxTreeDepth := fun r h => (guarded_eq_some doc _ r h).1
+  constructor
+  · cases h : openReaderE doc with
+    | none => exact Nat.zero_le _
+    | some r => have := key r h; show depth doc + 1 ≤ maxTreeDepth + 1; omega
+  · intro r h
+    have hd := key r h
+    refine ⟨hd, Nat.le_trans (bodyOf_depth_le doc) hd, fun x hx => ?_⟩
+    have := nodesAt_level doc 0 x hx
+    omega
+
+example : openReaderE (nestedDoc 3 [120]) = some (openReader (nestedDoc 3 [120])) :=
+  (open_within _ (by rw [depth_nestedDoc]; decide)).1
+
+/-! ## the public calls within the depth limit (restated) -/
+
+/-- RESTATED with the depth hypothesis (was: for every tree): up to white space, `OpenReader` +
+`TextWithOptions` returns the atoms of the specification, one after the other. -/
+theorem text_is_atoms (m : Int) (doc : Dom) (hd : depth doc ≤ maxTreeDepth) :
+    (openText m doc).map squeeze =
+      some ((atomsOf (excluded (clampMode m)) (bodyOf doc)).flatMap Atom.sq) := by
+  rw [((open_within doc hd).2.2.1 m).1, Option.map_some, view_text_is_atoms]
+
+/-- MONOTONE, END TO END, RESTATED with the depth hypothesis (was: for every tree; beyond the limit
+there is no text in any mode, see `open_refuses_beyond`): for raw mode values `a`, `b` with `b` at
+least as strict as `a`, both calls succeed and the text for `b` is (white space aside) a
+subsequence of the text for `a`. -/
+theorem text_monotone (a b : Int) (h : (clampMode a).rank ≤ (clampMode b).rank) (doc : Dom)
+    (hd : depth doc ≤ maxTreeDepth) :
+    ∃ ta tb, openText a doc = some ta ∧ openText b doc = some tb ∧ (squeeze tb).Sublist (squeeze ta) :=
+  ⟨_, _, ((open_within doc hd).2.2.1 a).1, ((open_within doc hd).2.2.1 b).1, view_text_monotone a b h doc⟩
+
+/-- RESTATED with the depth hypothesis: the four documented modes as a chain, and mode None (what
+`Extractor.Text` uses) returns everything. -/
+theorem text_mode_chain (doc : Dom) (hd : depth doc ≤ maxTreeDepth) :
+    ∃ t0 t1 t2 t3, openText 0 doc = some t0 ∧ openText 1 doc = some t1 ∧ openText 2 doc = some t2 ∧
+      openText 3 doc = some t3 ∧ extractorTextE doc = some t0 ∧
+      (squeeze t3).Sublist (squeeze t2) ∧ (squeeze t2).Sublist (squeeze t1) ∧ (squeeze t1).Sublist (squeeze t0) ∧
+      ∀ m : Int, ∃ t, openText m doc = some t ∧ (squeeze t).Sublist (squeeze t0) := by
+  have w := open_within doc hd
+  have c := view_text_mode_chain doc
+  exact ⟨_, _, _, _, (w.2.2.1 0).1, (w.2.2.1 1).1, (w.2.2.1 2).1, (w.2.2.1 3).1, w.2.2.2.1, c.1, c.2.1, c.2.2.1,
+    fun m => ⟨_, (w.2.2.1 m).1, c.2.2.2 m⟩⟩
+
+/-- CONTENT, END TO END, RESTATED with the depth hypothesis (was: for every tree; a document nested
+deeper than the limit returns an error instead of its text): up to white space and the list
+bullets, the text returned is the source text of the document. -/
+theorem text_is_source_text (m : Int) (doc : Dom) (hd : depth doc ≤ maxTreeDepth) :
+    ∃ t, openText m doc = some t ∧
+      (squeeze t).filter (· != 0x2022) = (squeeze (srcOf m doc)).filter (· != 0x2022) :=
+  ⟨_, ((open_within doc hd).2.2.1 m).1, view_text_is_source_text m doc⟩
+
+/-- RESTATED with the depth hypothesis: the Document view keeps every non-empty text in order … -/
+theorem document_keeps_content (m : Int) (doc : Dom) (hd : depth doc ≤ maxTreeDepth) :
+    ∃ d, openDocument m doc = some d ∧
+      nonEmpty (docTexts d) = nonEmpty ((atomsOf (excluded (clampMode m)) (bodyOf doc)).map Atom.text) :=
+  ⟨_, ((open_within doc hd).2.2.1 m).2.2, view_document_keeps_content m doc⟩
+
+/-- … and is monotone in the mode. -/
+theorem document_monotone (a b : Int) (h : (clampMode a).rank ≤ (clampMode b).rank) (doc : Dom)
+    (hd : depth doc ≤ maxTreeDepth) :
+    ∃ da db, openDocument a doc = some da ∧ openDocument b doc = some db ∧
+      (nonEmpty (docTexts db)).Sublist (nonEmpty (docTexts da)) :=
+  ⟨_, _, ((open_within doc hd).2.2.1 a).2.2, ((open_within doc hd).2.2.1 b).2.2, view_document_monotone a b h doc⟩
+
 /-! ## EPUB -/
 
-/-- up to white space the text of a book is the texts of its chapters one after the other (empty
-chapters vanish, the separators are white space) … -/
+/-- RESTATED (was: all chapters): up to white space the text of a book is the texts of its ADMITTED
+chapters one after the other — empty chapters vanish, the separators are white space, and a chapter
+nested deeper than `maxTreeDepth` is left out (`OpenReader` fails, the loop continues; the call
+itself returns no error) … -/
 theorem epub_text_is_chapters (m : Int) (chapters : List Dom) :
-    squeeze (epubText m chapters) = chapters.flatMap fun d => squeeze (textWithOptions m d) := by
+    squeeze (epubText m chapters) =
+      (chapters.filter admitted).flatMap fun d => squeeze (textWithOptions m d) := by
   unfold epubText
   rw [squeeze_joinWith _ (by decide), epubParts_squeeze]
 
-/-- … hence the property carries over to every EPUB, chapter by chapter: monotone in the raw mode
-value, and `Text()` (mode 0) returns everything. -/
+/-- … hence the monotone half carries over to every EPUB, chapter by chapter (verbatim: which
+chapters are admitted does not depend on the mode): monotone in the raw mode value, and `Text()`
+(mode 0) returns everything any mode returns. -/
 theorem epub_monotone (a b : Int) (h : (clampMode a).rank ≤ (clampMode b).rank) (chapters : List Dom) :
     (squeeze (epubText b chapters)).Sublist (squeeze (epubText a chapters)) := by
   rw [epub_text_is_chapters, epub_text_is_chapters]
-  exact flatMap_sublist _ _ (fun d => text_monotone a b h d) chapters
+  exact flatMap_sublist _ _ (fun d => view_text_monotone a b h d) _
 
 theorem epub_mode_chain (chapters : List Dom) :
     (squeeze (epubText 3 chapters)).Sublist (squeeze (epubText 2 chapters)) ∧
@@ -179,12 +354,56 @@ theorem epub_mode_chain (chapters : List Dom) :
   ⟨epub_monotone 2 3 (by decide) _, epub_monotone 1 2 (by decide) _, epub_monotone 0 1 (by decide) _,
    fun m => epub_monotone 0 m (by simp [clampMode, Mode.rank]) _⟩
 
+/-- when every chapter is within the limit, the former statement holds as it was -/
+theorem epub_text_is_chapters_within (m : Int) (chapters : List Dom)
+    (hd : ∀ d ∈ chapters, depth d ≤ maxTreeDepth) :
+    squeeze (epubText m chapters) = chapters.flatMap fun d => squeeze (textWithOptions m d) := by
+  rw [epub_text_is_chapters]
+  congr 1
+  rw [List.filter_eq_self]
+  intro d hm
+  simpa [admitted] using hd d hm
+
+example : ∀ d ∈ [nestedDoc 9996 [120], nestedDoc 0 [121]], depth d ≤ maxTreeDepth := by
+  intro d hm
+  simp only [List.mem_cons, List.mem_nil_iff, or_false] at hm
+  rcases hm with rfl | rfl <;> (rw [depth_nestedDoc]; decide)
+
+/-- BEYOND THE LIMIT, EPUB: a chapter nested deeper than `maxTreeDepth` contributes nothing to the
+text or the Markdown of the book — the result is that of the book without the chapter — and the
+loop never evaluates a view on it (`view` may be replaced by anything on refused chapters). -/
+theorem epub_deep_chapter_left_out (m : Int) (a b : List Dom) (d : Dom) (h : maxTreeDepth < depth d) :
+    epubText m (a ++ d :: b) = epubText m (a ++ b) ∧ epubMarkdown m (a ++ d :: b) = epubMarkdown m (a ++ b) ∧
+    ∀ view view' : Dom → Str, (∀ x, depth x ≤ maxTreeDepth → view x = view' x) →
+      ∀ chapters, epubParts view chapters = epubParts view' chapters := by
+  have hna : ¬ admitted d = true := by simp [admitted]; omega
+  have one : ∀ view : Dom → Str, epubParts view (a ++ d :: b) = epubParts view (a ++ b) := by
+    intro view
+    rw [epubParts_append, epubParts_append, epubParts_cons]
+    simp [hna]
+  exact ⟨by unfold epubText; rw [one], by unfold epubMarkdown; rw [one], fun v v' hv cs => epubParts_congr v v' hv cs⟩
+
+example : epubText 0 [nestedDoc 0 [120], nestedDoc 9997 [121], nestedDoc 0 [122]] =
+    epubText 0 [nestedDoc 0 [120], nestedDoc 0 [122]] :=
+  (epub_deep_chapter_left_out 0 [nestedDoc 0 [120]] [nestedDoc 0 [122]] (nestedDoc 9997 [121])
+    (by rw [depth_nestedDoc]; decide)).1
+
+/-- BOUNDED WORK, EPUB, for every book: one call parses and walks each chapter at most once, keeps at
+most one part per admitted chapter, and every chapter it walks is at most `maxTreeDepth` deep. -/
+theorem epub_work_bounded (view : Dom → Str) (chapters : List Dom) :
+    (epubParts view chapters).length ≤ (chapters.filter admitted).length ∧
+    (chapters.filter admitted).length ≤ chapters.length ∧
+    ∀ d ∈ chapters.filter admitted, depth d ≤ maxTreeDepth := by
+  refine ⟨epubParts_length view chapters, List.length_filter_le _ _, fun d hm => ?_⟩
+  have := (List.mem_filter.mp hm).2
+  simpa [admitted] using this
+
 /-! ## content outside the excluded subtrees -/
 
 /-- OUTSIDE UNCHANGED, end to end: if mode value `m` excludes no node of the document's body that
 mode None would keep (the predicates agree on the whole body), `TextWithOptions` and the Document
 view return for `m` what they return for None — nothing else ever influences the result. -/
-theorem text_unchanged_when_nothing_excluded (m : Int) (doc : Dom)
+theorem view_text_unchanged_when_nothing_excluded (m : Int) (doc : Dom)
     (h : agree (excluded .none) (excluded (clampMode m)) (hasWrapper (bodyOf doc)) .root (bodyOf doc)) :
     squeeze (textWithOptions m doc) = squeeze (textWithOptions 0 doc) ∧
     nonEmpty (docTexts (documentWithOptions m doc)) = nonEmpty (docTexts (documentWithOptions 0 doc)) := by
@@ -192,8 +411,19 @@ theorem text_unchanged_when_nothing_excluded (m : Int) (doc : Dom)
     unfold atomsOf
     exact agree_unchanged _ _ _ _ _ _ h
   constructor
-  · rw [text_is_atoms, text_is_atoms, e]
-  · rw [document_keeps_content, document_keeps_content, e]
+  · rw [view_text_is_atoms, view_text_is_atoms, e]
+  · rw [view_document_keeps_content, view_document_keeps_content, e]
+
+/-- RESTATED with the depth hypothesis (was: for every tree): if mode value `m` excludes no node of
+the body that mode None would keep, the public calls return for `m` what they return for None. -/
+theorem text_unchanged_when_nothing_excluded (m : Int) (doc : Dom) (hd : depth doc ≤ maxTreeDepth)
+    (h : agree (excluded .none) (excluded (clampMode m)) (hasWrapper (bodyOf doc)) .root (bodyOf doc)) :
+    ∃ tm t0 dm d0, openText m doc = some tm ∧ openText 0 doc = some t0 ∧
+      openDocument m doc = some dm ∧ openDocument 0 doc = some d0 ∧
+      squeeze tm = squeeze t0 ∧ nonEmpty (docTexts dm) = nonEmpty (docTexts d0) := by
+  have w := open_within doc hd
+  have v := view_text_unchanged_when_nothing_excluded m doc h
+  exact ⟨_, _, _, _, (w.2.2.1 m).1, (w.2.2.1 0).1, (w.2.2.1 m).2.2, (w.2.2.1 0).2.2, v.1, v.2⟩
 
 example : agree (excluded .none) (excluded (clampMode 3)) false .root
     (.elem T.body [] [.elem T.p [] [.text [120]]]) := by
